@@ -34,7 +34,7 @@ CHECKS = {
    text="Output must be header, delimiter and one line per non-separator row, each with NColumns+1 unescaped pipes; delimiter cells :?-{3,}:? per effective alignment; cells decode to the trimmed text; no raw | LF < > & \" ' from content; header-less / column-less tables refused. Half of the cases are staged (same wrapper, other alignments at the earlier renders, explicit withdrawals; a fresh wrapper must agree with the reused one).",
    note="html.UnescapeString trusted; CR excluded (documented non-goal)."),
  "C09": dict(cat="exploration", tech="runtime monitor: recover()-based panic guard and (text,err) check around every renderer and style, over bounded-exhaustive and random build sequences",
-   text="All build sequences up to a bounded length over the building operations x item flavours are enumerated exhaustively and each resulting table is rendered by all five renderers and every registered decoration under a panic guard; longer random sequences in addition; registered decorations include one complete and seven partially filled application decorations; the order of the routes over the one table varies per case.",
+   text="All build sequences up to a bounded length over the building operations x item flavours are enumerated exhaustively and each resulting table is rendered by all five renderers and every registered decoration under a panic guard; longer random sequences in addition; registered decorations include one complete and seven partially filled application decorations; the order of the routes over the one table varies per case; a further phase renders the table through every direct route from inside a table-level add-time row callback, each time a row arrives while AddRow is still running.",
    note="Go's runtime checks are the sanitizer. Custom Table implementations that lie about NColumns are outside the statement."),
  "C10": dict(cat="exploration", tech="runtime monitor: byte-equality of outputs across creation paths x render routes x wrapper nestings",
    text="One history is replayed on a table from every creation path; outputs collected through package functions, wrapper methods, auto and nested wrappers must be byte-identical to the reference route, and Render must equal what RenderTo writes; six application-registered decorations are targets and creation paths too; right after any render that returned an error a canary table is rendered through Render and RenderTo in all five formats.",
